@@ -48,7 +48,7 @@ ObsContent(o, Cexp) ==
    ann |-> [x \in AllIds |-> o.ann[x]], note |-> [x \in AllIds |-> o.note[x]],
    attr |-> [x \in AllIds |-> [name |-> o.attr[x].name, formula |-> o.attr[x].formula, charge |-> o.attr[x].charge,
                                subsys |-> o.attr[x].subsys]],
-   xcols |-> SeqSet(o.lp.xcols), xrows |-> SeqSet(o.lp.xrows), solver |-> o.solver]
+   xcols |-> SeqSet(o.lp.xcols), xrows |-> SeqSet(o.lp.xrows), solver |-> o.solver, tol |-> o.tol]
 RulesInSync(o, C) == o.present => \A r \in RxU : (r \in SeqSet(o.rxns) => RuleMatches(C.rule[r], o, r))
 
 \* ------------------------------------------------------------ (1) expected vs observed, one slot
@@ -79,6 +79,7 @@ SlotDiff(o, C, depth, helper) ==
      \cup (IF helper = 0 /\ SeqSet(o.lp.xcols) # C.xcols THEN {"xcols"} ELSE {})
      \cup (IF helper = 0 /\ SeqSet(o.lp.xrows) # C.xrows THEN {"xrows"} ELSE {})
      \cup (IF o.solver # C.solver THEN {"solver"} ELSE {})
+     \cup (IF o.tol # C.tol THEN {"tol"} ELSE {})
      \cup (IF o.ctx # depth THEN {"ctx"} ELSE {})
 
 \* ------------------------------------------------------------ (2) invariants on the implementation state
@@ -100,6 +101,8 @@ LPMirrors(o, helper) ==
         /\ \A r \in RxU : lp.obj[r].f = (IF r \in rx THEN o.objc[r] ELSE 0)
                           /\ lp.obj[r].r = (IF r \in rx THEN -o.objc[r] ELSE 0)
         /\ lp.objx = 0 /\ lp.dir = o.dir /\ lp.noncont = 0
+  \* the solver works with the model's tolerance (feasibility and integrality)
+  /\ lp.tolf = o.tol /\ lp.toli = o.tol
 
 \* C02: cross references, ownership, identifier lookups
 CrossRefOK(o) ==
